@@ -297,6 +297,20 @@ def body_kl_and_plotly(ctx, n, ub, m):
                   and np.allclose(np.array(calls[0][1], dtype=float), want1),
                   "kl-distance-uses-the-current-counts-of-both-ids")
         part.fill(q, "test", reset=True)  # back to the single fill for the frame below
+        # two *filled* ids against each other: every leaf takes part, also leaves that are empty under both ids (their
+        # corrected mass 0.5 / (N + L/2) is part of both distributions; seed C08-8)
+        r = _points(ctx, "r", 1, 1)
+        part.fill(r, "other")
+        del calls[:]
+        d2 = part.kl_distance("test", "other")
+        ct, co = part.leaf_counts("test"), part.leaf_counts("other")
+        wt = [(c + 0.5) / (sum(ct) + k / 2) for c in ct]
+        wo = [(c + 0.5) / (sum(co) + k / 2) for c in co]
+        ctx.prove(len(calls) == 1 and d2 == calls[0][2] and len(calls[0][0]) == k and len(calls[0][1]) == k
+                  and np.allclose(np.array(calls[0][0], dtype=float), wt) and np.allclose(np.array(calls[0][1], dtype=float), wo),
+                  "kl-distance-of-two-filled-ids-covers-every-leaf")
+        if any(a == 0 and b == 0 for a, b in zip(ct, co)):
+            ctx.witness("leaf-empty-under-both-fills")
         del calls[:]
         df = part.to_plotly_dataframe("build", "test")
         nodes = list(_walk(part.node))
@@ -373,5 +387,6 @@ def jobs(tier):
         out.append(Job(f"distn-k{k}", "checks.c08:body_distn", {"k": k}, expect=("lemma",)))
     for n, ub, m in ((3, 1, 2), (2, 1, 1), (3, 2, 2)) + (() if q else ((4, 1, 2),)):
         out.append(Job(f"kl-plotly-n{n}-ub{ub}-m{m}", "checks.c08:body_kl_and_plotly", {"n": n, "ub": ub, "m": m},
-                       expect=("checked",) + (("zero-count-node",) if n > ub else ()), opts={"validate": 1}))
+                       expect=("checked",) + (("zero-count-node", "leaf-empty-under-both-fills") if n > ub else ()),
+                       opts={"validate": 1}))
     return out
